@@ -233,6 +233,12 @@ func (req InsertPointsRequest) Validate() error {
 	if len(req.Points) < 1 || len(req.Points) > 10000 {
 		return fmt.Errorf("number of points must be between 1 and 10000, got %d", len(req.Points))
 	}
+	for i, point := range req.Points {
+		// A null in the list decodes to a nil map
+		if point == nil {
+			return fmt.Errorf("point %d is not an object", i)
+		}
+	}
 	return nil
 }
 
@@ -313,6 +319,11 @@ type UpdatePointsRequest struct {
 func (req UpdatePointsRequest) Validate() error {
 	if len(req.Points) < 1 || len(req.Points) > 100 {
 		return fmt.Errorf("number of points must be between 1 and 100, got %d", len(req.Points))
+	}
+	for i, point := range req.Points {
+		if point == nil {
+			return fmt.Errorf("point %d is not an object", i)
+		}
 	}
 	return nil
 }
